@@ -580,3 +580,5 @@ PROPS["C19"]["level_text"] += (" tell_system_pubsub_msg(): every notification wi
 for _h, _fn in (("traverse_in", "traverse_inorder"), ("traverse_pre", "traverse_preorder"), ("traverse_post", "traverse_postorder")):
     U("b." + _h, src="units/bst.c", harness="h_b_" + _h, enforce=_fn, enforce_rec=True, replace=["v_trav_cb"], defines=["V_TRAV_UNIT"], logctx="STRUCTS", props=["C11", "C04"],
       contract_files=["contracts/bst.contracts.h"], native=False, timeout=300, min_obligations=5, unwind=3, unwindset={"v_base_init.0": 8, "v_inputs_init.0": 12}, structure_dependent=True)
+# (mod.manage_srcs: a loop-contract unit for the per-kind source walk exists as a draft -- contracts/msrcs.contracts.h, V_MSRCS_UNIT in units/mod_unit.c -- but is NOT registered:
+# 6 min per run and its iterator preconditions do not discharge yet; manage_srcs() stays a callee contract, listed under not_decided of C09/C01)
